@@ -295,7 +295,8 @@ def _r3_r4(ck: Checker, prog: Program):
     # samples_per_window = k + 1  (k = the rounded quotient)
     v = Translator().tr(spw[0].value)
     kexpr = sp.simplify(v - 1)
-    if kexpr.has(sp.Function("int")) or kexpr.has(sp.Function("round")) or kexpr.has(sp.floor):
+    k_is_whole_count = (kexpr.is_Function and kexpr.func.__name__ in ("int", "round")) or isinstance(kexpr, sp.floor)
+    if k_is_whole_count:
         ck.ok("C10.R3", fq, "samples_per_window = k + 1", detail=f"k = {kexpr}")
     else:
         ck.violation("C10.R3", fq, "samples per window", f"samples_per_window is {v}, not (whole intervals) + 1", loc=f.loc(spw[0]))
